@@ -4,7 +4,7 @@ import LyModel.Yin.LemmasLex
 set_option linter.unusedSimpArgs false
 set_option linter.unusedVariables false
 namespace LyModel.Yin
-open LyModel LyModel.Utf8 LyModel.Generated LyModel.XmlText
+open LyModel LyModel.Utf8 LyModel.Generated LyModel.XmlText LyModel.XmlLex
 
 theorem parse_dump (attr : Bool) (endc : UInt8) (hend : EndOk attr endc) (s rest : Bytes) (hs : YangText s)
     (hrest : stripPrefix sCdata (endc :: rest) = none) :
